@@ -52,6 +52,7 @@ type Pull struct {
 	Every int `json:"every"`
 	Phase int `json:"phase"`
 	N     int `json:"n"`
+	Stall int `json:"stall,omitempty"` // the device does not touch the port before this tick
 }
 
 // Input describes one run.
@@ -59,6 +60,9 @@ type Input struct {
 	Topo     string `json:"topo"` // generic | pcie | nvlink | mesh
 	DevPorts []int  `json:"devports"`
 	Pulls    []Pull `json:"pulls"`
+	// PPulls[d][q], when present, is the drain policy of port q of device d (ports stall and drain independently)
+	PPulls  [][]Pull `json:"ppulls,omitempty"`
+	PortBuf int      `json:"portbuf,omitempty"` // device-port buffer size (default 2)
 	Msgs     []Msg  `json:"msgs"`
 	// generic
 	Ops  []Op `json:"ops,omitempty"`
@@ -118,6 +122,7 @@ type agent struct {
 	ports []messaging.Port
 	queue []pending
 	pull  Pull
+	pp    []Pull
 	tick  int
 	log   *[]event
 }
@@ -133,17 +138,22 @@ func (a *agent) Tick() bool {
 		}
 		progress = true // keep ticking until everything is handed over
 	}
-	every := max(a.pull.Every, 1)
-	if a.tick%every == a.pull.Phase%every {
-		for _, p := range a.ports {
-			for i := 0; i < max(a.pull.N, 1); i++ {
-				m := p.RetrieveIncoming()
-				if m == nil {
-					break
-				}
-				*a.log = append(*a.log, event{"R", p.Name(), m.Meta()})
-				progress = true
+	for q, p := range a.ports {
+		pl := a.pull
+		if q < len(a.pp) {
+			pl = a.pp[q]
+		}
+		every := max(pl.Every, 1)
+		if a.tick < pl.Stall || a.tick%every != pl.Phase%every {
+			continue
+		}
+		for i := 0; i < max(pl.N, 1); i++ {
+			m := p.RetrieveIncoming()
+			if m == nil {
+				break
 			}
+			*a.log = append(*a.log, event{"R", p.Name(), m.Meta()})
+			progress = true
 		}
 	}
 	for _, p := range a.ports {
@@ -350,9 +360,16 @@ func run(raw json.RawMessage) (hx.Case, error) {
 		if d < len(in.Pulls) {
 			a.pull = in.Pulls[d]
 		}
+		if d < len(in.PPulls) {
+			a.pp = in.PPulls[d]
+		}
 		a.TickingComponent = modeling.NewTickingComponent(fmt.Sprintf("Dev[%d]", d), engine, 1*timing.GHz, a)
 		for q := 0; q < max(np, 1); q++ {
-			p := messaging.NewPort(a, 2, 2, fmt.Sprintf("Dev[%d].Port[%d]", d, q))
+			pb := in.PortBuf
+			if pb <= 0 {
+				pb = 2
+			}
+			p := messaging.NewPort(a, pb, pb, fmt.Sprintf("Dev[%d].Port[%d]", d, q))
 			a.ports = append(a.ports, p)
 			intern(p.Name())
 		}
@@ -523,6 +540,9 @@ func run(raw json.RawMessage) (hx.Case, error) {
 		} else {
 			c.Tags = append(c.Tags, "mesh:2D")
 		}
+	}
+	if len(in.PPulls) > 0 {
+		c.Tags = append(c.Tags, "multi-port-device-with-stalled-port")
 	}
 	if panicked {
 		c.Tags = append(c.Tags, "panic")
